@@ -3,6 +3,7 @@ package props
 import (
 	"context"
 	"fmt"
+	"strings"
 
 	mcp "trpc.group/trpc-go/trpc-mcp-go"
 	"verif.local/engine/explore"
@@ -90,6 +91,11 @@ func c20Client(prefix []int, mode string, variant string) explore.Outcome {
 }
 
 func c20Server(prefix []int, variant string) explore.Outcome {
+	if variant == "notify-vs-streams" {
+		// an http.ResponseWriter used by two goroutines at once is a data race inside net/http: reported
+		// through the non-atomic writer model (there is no net/http for ThreadSanitizer to look into here)
+		defer nonAtomicWriters()()
+	}
 	var viol []explore.Violation
 	obs := &hx.Log{}
 	res := vsched.Run(cfgFor(prefix), func() {
@@ -175,7 +181,7 @@ func c20Server(prefix []int, variant string) explore.Outcome {
 	o := finishOutcome(res, obs, viol, true)
 	var keep []explore.Violation
 	for _, v := range o.Violations {
-		if len(v.Key) > 5 && (v.Key[:5] == "race:" || v.Key[:6] == "panic:" || v.Key == "harness") {
+		if len(v.Key) > 5 && (v.Key[:5] == "race:" || v.Key[:6] == "panic:" || v.Key == "harness" || strings.HasPrefix(v.Key, "responsewriter-concurrent-use")) {
 			keep = append(keep, v)
 		}
 	}
